@@ -4,10 +4,11 @@
    each history its own state) or with -simulate (longer random histories over more neighbours). *)
 EXTENDS BfdReg, Json
 
-CONSTANTS MaxSteps
+CONSTANTS MaxSteps,
+          Mode       \* "plain": neighbours configured one by one; "group": only through the peer group; "all"
 
 VARIABLES hist, done
-gvars == <<phase, cfg, reg, hist, done>>
+gvars == <<grp, phase, cfg, reg, hist, done>>
 
 GenInit == Init /\ hist = <<>> /\ done = FALSE
 
@@ -18,13 +19,17 @@ GenOps ==
   /\ ~Over /\ UNCHANGED done
   /\ \/ StartBgp /\ hist' = Append(hist, Op("Start", "", Absent))
      \/ StopBgp /\ hist' = Append(hist, Op("Stop", "", Absent))
-     \/ \E n \in Nbrs, c \in Confs :
+     \/ Mode # "group" /\ \E n \in Nbrs, c \in Confs :
           \/ AddPeer(n, c) /\ UNCHANGED phase /\ hist' = Append(hist, Op("Add", n, c))
           \/ UpdatePeer(n, c) /\ UNCHANGED phase /\ hist' = Append(hist, Op("Upd", n, c))
+     \/ Mode # "plain" /\ \E c \in Confs :
+          \/ AddGroup(c) /\ hist' = Append(hist, Op("AddGroup", "", c))
+          \/ UpdateGroup(c) /\ hist' = Append(hist, Op("UpdGroup", "", c))
+     \/ Mode # "plain" /\ \E n \in Nbrs : AddMember(n) /\ hist' = Append(hist, Op("AddMember", n, grp))
      \/ \E n \in Nbrs : DeletePeer(n) /\ hist' = Append(hist, Op("Del", n, Absent))
 
 (* one closing step per history, so that a simulation prints the history it followed exactly once *)
-GenFinish == Over /\ ~done /\ done' = TRUE /\ UNCHANGED <<phase, cfg, reg, hist>>
+GenFinish == Over /\ ~done /\ done' = TRUE /\ UNCHANGED <<grp, phase, cfg, reg, hist>>
 GenNext == GenOps \/ GenFinish
 
 GenSpec == GenInit /\ [][GenNext]_gvars
